@@ -14,7 +14,7 @@ from .. import core
 PID = "C05"
 THEOREMS = [
     "construct_mapping_is_distortion", "ub_sound", "lb_trivial_sound", "thmA_sound", "thmB_sound",
-    "bounded_curvature_any_oracle", "greedy_complete_all", "lb_sound", "lb_total", "numpy_oracles_in_range",
+    "bounded_curvature_any_oracle", "greedy_complete_all", "greedy_total", "lb_sound", "lb_total", "numpy_oracles_in_range",
     "greedy_eq_bruteforce_small", "lb_nonneg", "half_integers", "iso_lb_zero", "iso_find_lb_zero",
     "estimate_brackets", "estimate_total",
 ]
@@ -84,6 +84,21 @@ def _graph(rng, kind, n):
     return _relabel(_upper(n, e), _perm(rng, n)) if kind in ("path", "cycle", "star", "spider") and rng.random() < 0.5 else _upper(n, e)
 
 
+def _rich(rng, n):
+    """graphs with several distinct row distributions: trees, cycles with chords, near-regular circulants"""
+    k = rng.choice(["tree", "tree", "chords", "circulant", "sparse", "spider"])
+    if k == "tree":
+        e = _tree(rng, n)
+    elif k == "chords":
+        e = [(i, (i + 1) % n) for i in range(n)] + [tuple(rng.sample(range(n), 2)) for _ in range(rng.randint(1, 3))]
+    elif k == "circulant":
+        step = rng.randint(2, max(2, n // 2))
+        e = [(i, (i + 1) % n) for i in range(n)] + [(i, (i + step) % n) for i in range(n) if rng.random() < 0.8]
+    else:
+        return _graph(rng, k, n)
+    return _relabel(_upper(n, e), _perm(rng, n))
+
+
 def _perm(rng, n):
     p = list(range(n))
     rng.shuffle(p)
@@ -103,7 +118,7 @@ def _case(rng, cls, AX, AY, iso=None, nseeds=2):
 
 
 def generate(rng, tier):
-    n_cases = 600 if tier == "quick" else 20000
+    n_cases = 450 if tier == "quick" else 15000
     cases = []
     for _ in range(n_cases):
         r = rng.random()
@@ -131,6 +146,21 @@ def generate(rng, tier):
             kx, ky = rng.choice(KINDS), rng.choice(KINDS)
             cls = kx if rng.random() < 0.5 else ky
             cases.append(_case(rng, cls, _graph(rng, kx, rng.randint(1, 7)), _graph(rng, ky, rng.randint(1, 7))))
+    # larger relabelled copies of sparse graphs: equal sizes and diameters, many distinct row distributions, so the
+    # row test of Theorem B runs through several rows of K and all rows of DY; the true distance is 0 by construction
+    for _ in range(300 if tier == "quick" else 6000):
+        n = rng.randint(5, 14)
+        AX = _rich(rng, n)
+        p = _perm(rng, n)
+        cases.append({"cls": "iso_tree", "kind": "lb", "AX": AX, "AY": _relabel(AX, p), "iso": p,
+                      "fmt": rng.choice(["csr", "dense", "list"])})
+    # lower bound only, model vs implementation exactly, on pairs of 6-10 vertices with several distinct row
+    # distributions (the pure model cannot share state between feasibility checks)
+    for _ in range(300 if tier == "quick" else 6000):
+        n = rng.randint(6, 10)
+        m = n if rng.random() < 0.7 else rng.randint(6, 10)
+        cases.append({"cls": "lb_only", "kind": "lb", "AX": _rich(rng, n), "AY": _rich(rng, m), "iso": None,
+                      "fmt": rng.choice(["csr", "dense", "list"])})
     # the greedy assignment test on its own, on distributions larger than 7-vertex graphs produce
     for _ in range(150 if tier == "quick" else 3000):
         maxd = rng.randint(1, 9)
@@ -234,16 +264,30 @@ def impl_run(cases):
 
     def one(c):
         if c.get("kind") == "greedy":
-            return {"feasible": bool(mod.check_assignment_feasibility(
-                np.array(c["v"], dtype=np.int8), np.array(c["u"], dtype=np.int8), np.int8(c["d"])))}
+            va, ua = np.array(c["v"], dtype=np.int8), np.array(c["u"], dtype=np.int8)
+            r = bool(mod.check_assignment_feasibility(va, ua, np.int8(c["d"])))
+            out = {"feasible": r, "v_after": [int(x) for x in va], "u_after": [int(x) for x in ua]}
+            r2 = bool(mod.check_assignment_feasibility(va, ua, np.int8(c["d"])))      # state-leak monitor
+            if r2 != r:
+                out["leak"] = "check_assignment_feasibility answered %s, then %s on the same arrays" % (r, r2)
+            return out
         out = {}
-        order = np.array(c["order"], dtype=float)
         DX = mod.make_distance_matrix_from_adjacency_matrix(conv(c["AX"], c["fmt"]))
         DY = mod.make_distance_matrix_from_adjacency_matrix(conv(c["AY"], c["fmt"]))
         out["DX"] = [[int(v) for v in r] for r in np.asarray(DX)]
         out["DY"] = [[int(v) for v in r] for r in np.asarray(DY)]
+        bx, by = np.asarray(DX).tobytes(), np.asarray(DY).tobytes()
         lb = mod.find_lb(DX, DY)
         out["lb2"] = int(lb)
+        # state-leak monitor: same inputs, same process, second call; inputs must stay byte-identical
+        lb_again = int(mod.find_lb(DX, DY))
+        if lb_again != int(lb):
+            out["leak"] = "find_lb returned %d, then %d on the same inputs" % (int(lb), lb_again)
+        elif np.asarray(DX).tobytes() != bx or np.asarray(DY).tobytes() != by:
+            out["leak"] = "find_lb modified its input distance matrices"
+        if c.get("kind") == "lb":
+            return out
+        order = np.array(c["order"], dtype=float)
         # --- run with the harness-supplied RNG, logged
         prng = random.Random(c["pseed"])
         calls, cur = [], [None]
@@ -373,16 +417,16 @@ def min_distortion(DX, DY, budget=3_000_000):
 _true_cache = {}
 
 
-def true_two_mgh(c):
-    key = core.sha([c["AX"], c["AY"]])
+def true_two_mgh(c, budget=3_000_000):
+    key = core.sha([c["AX"], c["AY"], budget])
     if key not in _true_cache:
         DX, DY = _bfs(c["AX"]), _bfs(c["AY"])
         p = c.get("iso")
         if p is not None and len(DX) == len(DY) and all(DY[p[i]][p[j]] == DX[i][j] for i in range(len(DX)) for j in range(len(DX))):
             _true_cache[key] = 0
         else:
-            a = min_distortion(DX, DY)
-            b = min_distortion(DY, DX)
+            a = min_distortion(DX, DY, budget)
+            b = None if a is None else min_distortion(DY, DX, budget)
             _true_cache[key] = None if a is None or b is None else max(a, b)
     return _true_cache[key]
 
@@ -426,6 +470,14 @@ def predicate(c, o):
     DX, DY = _bfs(c["AX"]), _bfs(c["AY"])
     if o["DX"] != DX or o["DY"] != DY:
         return False, "metric: distance matrix differs from the hop metric"
+    if c.get("kind") == "lb":
+        l = o["lb2"]
+        if l < 0:
+            return False, "half-integer: negative lower bound %r" % (l / 2.0)
+        t2 = true_two_mgh(c, budget=150_000)
+        if t2 is not None and l > t2:
+            return False, "lower: lower bound %r exceeds true mGH %r (find_lb)" % (l / 2.0, t2 / 2.0)
+        return True, ""
     t2 = true_two_mgh(c)
     runs = [("seed %d" % s, l, u) for s, (l, u) in zip(c["seeds"], o["e2e"])] + [("patched-rng", o["lb2"] / 2.0, o["ub2"] / 2.0)]
     for name, l, u in runs:
@@ -461,6 +513,8 @@ def nontrivial(c, o):
         return "error" not in o and sum(c["v"]) >= 2 and sum(c["u"]) >= 2
     if "error" in o or min(len(c["AX"]), len(c["AY"])) < 3:
         return False
+    if c.get("kind") == "lb":
+        return c.get("iso") is not None or o.get("lb2", 0) > 0
     t2 = true_two_mgh(c)
     return t2 is not None and (t2 >= 1 or c.get("iso") is not None)
 
@@ -495,6 +549,9 @@ def _terms(c, o):
         zl = lambda l: core.coq_list([str(int(x)) for x in l])
         return "match check_feas %s %s %d with Some b => if Bool.eqb b %s then 0 else 256 | None => 512 end" % (
             zl(c["v"]), zl(c["u"]), c["d"], cbool(o["feasible"]))
+    if c.get("kind") == "lb":
+        return "bit (dm_ok %s %s) 1 + bit (dm_ok %s %s) 2 + check_lb %s %s %d" % (
+            cmat(c["AX"]), cmat(o["DX"]), cmat(c["AY"]), cmat(o["DY"]), cmat(o["DX"]), cmat(o["DY"]), o["lb2"])
     calls = o["calls"]
     if len(calls) != 2:
         return None
@@ -533,6 +590,13 @@ def coq_judge(cases, outs, results):
     for i, (c, o) in enumerate(zip(cases, outs)):
         if "error" in o:
             verdicts[i] = "disagree:implementation raised %s on a connected graph" % o["error"]
+            continue
+        if "leak" in o:
+            verdicts[i] = "disagree:state leak: " + o["leak"]
+            continue
+        if c.get("kind") == "greedy" and (o.get("v_after", c["v"]) != c["v"] or o.get("u_after", c["u"]) != c["u"]):
+            verdicts[i] = "disagree:check_assignment_feasibility modified its arguments (it is documented as pure; the " \
+                          "row distributions of DY are reused for every row of K)"
             continue
         t = _terms(c, o)
         if t is None:
